@@ -127,7 +127,7 @@ def prepare_worker(w):
     return d
 
 
-def run_one(w, m):
+def run_one(w, m, assume_survived=False):
     d = prepare_worker(w)
     path = os.path.join(d, m["file"])
     orig = open(os.path.join("/repo", m["file"])).read()
@@ -137,7 +137,11 @@ def run_one(w, m):
     open(path, "w").write("\n".join(lines))
     env = dict(os.environ, CARGO_TARGET_DIR=os.path.join(d, "target"), CARGO_NET_OFFLINE="true")
     res = dict(m)
-    try:
+    res.pop("fired", None)
+    if assume_survived:
+        res["status"] = "survived"
+    else:
+      try:
         r = subprocess.run(["cargo", "test", "--offline", "--lib", "-q"], cwd=d, env=env, stdout=subprocess.PIPE, stderr=subprocess.STDOUT,
                            text=True, timeout=240)
         out = r.stdout
@@ -149,7 +153,7 @@ def run_one(w, m):
             res["status"] = "survived"
         else:
             res["status"] = "killed"
-    except subprocess.TimeoutExpired:
+      except subprocess.TimeoutExpired:
         res["status"] = "timeout"
     if res["status"] == "survived":
         env2 = dict(os.environ, ESPADA_REPO=d)
@@ -180,11 +184,15 @@ def main():
     muts = generate(only)
     done = {}
     resf = os.path.join(OUT, "results.jsonl")
-    if "--resume" in args and os.path.exists(resf):
+    if ("--resume" in args or "--recheck" in args) and os.path.exists(resf):
         for ln in open(resf):
             r = json.loads(ln)
             done[r["id"]] = r
     todo = [m for m in muts if m["id"] not in done]
+    recheck = "--recheck" in args
+    if recheck:
+        # re-run only the checks on the known survivors (no cargo test)
+        todo = [m for m in muts if done.get(m["id"], {}).get("status") == "survived"]
     if limit:
         todo = todo[:limit]
     print(f"{len(muts)} mutants generated, {len(done)} done, {len(todo)} to run, {jobs} workers", flush=True)
@@ -202,7 +210,7 @@ def main():
             except queue.Empty:
                 return
             try:
-                r = run_one(w, m)
+                r = run_one(w, m, assume_survived=recheck)
             except Exception as e:
                 r = dict(m, status="error", error=str(e)[:200])
             with lock:
